@@ -29,8 +29,8 @@ RULE = (
     "values, level 0 included; with nobody connected: p connects and announces at once); EOF/reset of a link of p / "
     "of the parent / of a child; write failure armed on the client-side socket of the k-th child (the next write to "
     "that child raises ECONNRESET in drain(): nothing happens until the client fans something out); change of a "
-    "peer's connect outcome; ParentMinSpeed / ParentSpeedRatio / "
-    "GetUserStats(own speed); ResetDistributed; server session loss by reset (auto reconnect + re-login) or EOF "
+    "peer's connect outcome; ParentMinSpeed (1/5/10) / ParentSpeedRatio (multiples of 10 and 15, 25, 35, 99, 9, 5, "
+    "1) / GetUserStats(own speed, incl. the boundaries k * ratio/10 * 1024 and one byte below); ResetDistributed; server session loss by reset (auto reconnect + re-login) or EOF "
     "(re-login by a later event); long advance (0.5 / 2 / 11 s). Operands are indices modulo the live population. "
     "Optional structured prefixes raise the density of the interesting classes: child and parent early; "
     "'handover' (a second candidate connects after the parent was chosen and stays silent, the parent is lost, the "
@@ -38,7 +38,9 @@ RULE = (
     "the server about the loss); 'limit' (children first, then a speed/ratio/min-speed change, then one more peer); "
     "'fanout' (2..3 children, a write failure armed on one of them - first, middle or last of the children list - "
     "immediately before the parent announces new values / is lost / the server resets / a parent is set: every "
-    "remaining live child must still be told the new position). "
+    "remaining live child must still be told the new position); 'boundary' (a ratio/speed pair with maximum m <= 3, "
+    "mostly ratios that are not multiples of 10, set at login or by later ParentSpeedRatio / GetUserStats messages, "
+    "then exactly m + 1 peers connect: the last one must be refused). "
     "After each event the driver lets 1..4 loop iterations or 0.5 / 1 / 2 / 4 / 20 / 100 ms pass (the next event "
     "lands between the sends the previous one triggered; equal arrival instants interleave the handlers of "
     "different connections per loop iteration) or quiesces (>= 300 ms, extended until no send to the server is "
@@ -69,7 +71,8 @@ ASSUMPTIONS = [
     "advertised-position checks are applied only while the client is logged in (and >= 100 ms after the login "
     "request); structure checks always",
     "child limit reference: accept = speed >= min_speed*1024, max = floor(speed / (ratio/10*1024)) (SOULSEEK.rst "
-    "'Max children'), defaults min_speed 1 / ratio 50 (constants.py) while the server has not sent them on the "
+    "'Max children'; exact integer arithmetic floor(10*speed / (1024*ratio)), agrees with the pinned tree on the whole "
+    "generated grid incl. ratios below 10; ratio 0 has no documented meaning: not drawn, maximum not checked), defaults min_speed 1 / ratio 50 (constants.py) while the server has not sent them on the "
     "current server connection; the potential-parent cache holds the last 20 proposed names (constants.py)",
     "parent identity is the client's own choice (dn.parent); 'same user is parent and child over two different "
     "connections' is labelled, not flagged (the property is read per connection)",
@@ -84,9 +87,13 @@ BUDGET_S = {'quick': 150, 'thorough': 1500}
 ME = 'me'
 PEERS = ['p0', 'p1', 'p2', 'p3']
 ROOTS = PEERS + ['rA', 'rB']
-SPEEDS = [0, 1024, 5120, 6000, 10240, 20480]
+# own upload speeds incl. the boundaries k * (ratio / 10 * 1024) of the ratios below (indices are part of saved cases)
+SPEEDS = [0, 1024, 5120, 6000, 10240, 20480, 2048, 3072, 4096, 1536, 2560, 3584, 6144, 9216, 7168, 2047, 3071]
 MINSPEEDS = [1, 5, 10]
-RATIOS = [50, 25, 100]
+# ParentSpeedRatio values: multiples of 10 and others (15, 25, 35, 99, below 10); the last one (0) has no documented
+# meaning (division by zero in the documented formula): reachable by a saved case, not drawn by the strategy
+RATIOS = [50, 25, 100, 15, 35, 99, 5, 9, 1, 0]
+N_RATIOS_GEN = len(RATIOS) - 1
 GAPS = [0.0, 0.0005, 0.001, 0.002, 0.004, 'q', 0.02, 0.1]      # index 5 = quiesce (indices are part of saved cases)
 DRAIN = [0.0, 0.005, 0.05, 0.2]      # back pressure of the server link: drain() completes that much after a write
 ADV = [0.5, 2.0, 11.0]
@@ -97,7 +104,7 @@ QUIESCE = 0.3003     # off the 0.5 ms grid of the events: never samples the inst
 OBF_PORT = 2235
 OPS = ('pp', 'in', 'cin', 'wfail', 'lvl', 'root', 'both', 'plvl', 'proot', 'pboth', 'close', 'pclose', 'cclose', 'direct', 'indirect',
        'minspeed', 'ratio', 'speed', 'reset', 'drop', 'relogin', 'adv')
-PROGRAMMING_ERRORS = ('AttributeError', 'TypeError', 'ValueError', 'KeyError', 'IndexError', 'RuntimeError',
+PROGRAMMING_ERRORS = ('ZeroDivisionError', 'OverflowError', 'AttributeError', 'TypeError', 'ValueError', 'KeyError', 'IndexError', 'RuntimeError',
                       'InvalidStateError', 'AssertionError', 'NameError', 'UnboundLocalError', 'RecursionError')
 
 
@@ -137,7 +144,7 @@ def _event(draw):
     if op == 'minspeed':
         ev['v'] = draw(_i(len(MINSPEEDS)))
     if op == 'ratio':
-        ev['v'] = draw(_i(len(RATIOS)))
+        ev['v'] = draw(_i(N_RATIOS_GEN))
     if op == 'speed':
         ev['v'] = draw(_i(len(SPEEDS)))
     if op == 'adv':
@@ -159,7 +166,7 @@ def case_strategy(draw, avoid=()):
     prefix = []
     shape = draw(st.sampled_from(['none', 'child', 'parent', 'child+parent', 'child+parent', 'child+parent',
                                   'parent+child', 'parent+child', 'handover', 'handover', 'limit', 'fanout',
-                                  'fanout']))
+                                  'fanout', 'boundary', 'boundary']))
     forced = {}
     if shape != 'none':
         c = draw(_i(npeers))
@@ -199,6 +206,23 @@ def case_strategy(draw, avoid=()):
             peers[p]['auto'] = None
             peers[p]['direct'] = 0
             forced = {'speed': 5, 'minspeed': 0, 'ratio': draw(st.sampled_from([0, 1]))}
+        elif shape == 'boundary':
+            # the child limit at its boundary: a ratio/speed pair with a small maximum m (mostly ratios that are not
+            # multiples of 10, speeds at k * ratio/10 * 1024), set at login or by a later ParentSpeedRatio /
+            # GetUserStats, then exactly m + 1 peers connect: m are accepted, the last one must be refused
+            ri, si, m = _BOUNDARY[draw(st.one_of(_i(_N_ODD_BOUNDARY), _i(_N_ODD_BOUNDARY), _i(len(_BOUNDARY))))]
+            ins = [{'op': 'in', 'p': draw(_i(npeers)), 'obf': False, 'g': 5} for _ in range(m + 1)]
+            how = draw(st.sampled_from(['login', 'ratio-event', 'both-events']))
+            if how == 'login':
+                forced = {'speed': si, 'ratio': ri, 'minspeed': 0}
+                prefix = ins
+            elif how == 'ratio-event':
+                forced = {'speed': si, 'minspeed': 0}
+                prefix = [{'op': 'ratio', 'v': ri, 'g': 5}] + ins
+            else:
+                forced = {'minspeed': 0}
+                prefix = [{'op': 'ratio', 'v': ri, 'g': draw(st.sampled_from([5, 5, 2, 0]))},
+                          {'op': 'speed', 'v': si, 'g': 5}] + ins
         elif shape == 'limit':
             # children first, then the limit changes (possibly below the number of children), then one more peer
             change = draw(st.sampled_from([{'op': 'speed', 'v': 1}, {'op': 'speed', 'v': 2}, {'op': 'speed', 'v': 3},
@@ -214,7 +238,7 @@ def case_strategy(draw, avoid=()):
     events = [e for e in prefix + rest if e['op'] not in avoid]
     return dict({'peers': peers, 'race': draw(st.booleans()), 'speed': draw(st.sampled_from([2, 2, 2, 4, 4, 4, 5, 5, 5, 3, 1, 0])),
             'minspeed': draw(_i(len(MINSPEEDS))) if draw(st.booleans()) else 0,
-            'ratio': draw(_i(len(RATIOS))) if draw(st.booleans()) else 0,
+            'ratio': draw(_i(N_RATIOS_GEN)) if draw(st.booleans()) else 0,
             'drain': draw(st.sampled_from([0, 0, 0, 1, 2, 2, 3])), 'obfuscate': draw(st.sampled_from([False, False, True])),
             'events': events}, **forced)
 
@@ -256,7 +280,7 @@ def _sanitise(case):
         who = ev.get('who')
         out = {'op': op, 'g': _int(ev.get('g', 5), len(GAPS), 5),
                'who': [_int(w, npeers) for w in (who if isinstance(who, list) else [])][:3],
-               'p': _int(ev.get('p'), npeers), 'k': _int(ev.get('k'), 8), 'v': _int(ev.get('v'), 6),
+               'p': _int(ev.get('p'), npeers), 'k': _int(ev.get('k'), 8), 'v': _int(ev.get('v'), 64 if op in ('speed', 'ratio', 'minspeed') else 6),
                'r': _int(ev.get('r'), len(ROOTS)), 'rf': bool(ev.get('rf')), 'reset': bool(ev.get('reset')),
                'm': _int(ev.get('m'), 3), 'd': _int(ev.get('d'), len(ADV)), 'obf': bool(ev.get('obf'))}
         events.append(out)
@@ -269,13 +293,25 @@ def _sanitise(case):
 # reference pieces
 
 def _limits(speed, min_speed, ratio):
-    """SOULSEEK.rst 'Max children'."""
+    """SOULSEEK.rst 'Max children': accept iff speed >= min_speed * 1024; max = floor(speed / (ratio / 10 * 1024)),
+    computed here in exact integer arithmetic (= floor(10 * speed / (1024 * ratio))), independent of the library.
+    A ratio of 0 has no documented meaning: the maximum is undefined (None, not checked)."""
     min_speed = 1 if min_speed is None else min_speed
     ratio = 50 if ratio is None else ratio
     if speed < min_speed * 1024:
         return False, 0
-    divider = (ratio / 10) * 1024
-    return True, int(math.floor(speed / divider))
+    if ratio <= 0:
+        return True, None
+    return True, (10 * speed) // (1024 * ratio)
+
+
+# (ratio index, speed index, maximum) with min speed 1 and a small maximum: the 'boundary' prefix connects exactly
+# maximum + 1 peers (the last one must be refused); ratios that are not multiples of 10 come first (drawn more often)
+_BOUNDARY = sorted(((ri, si, _limits(SPEEDS[si], 1, RATIOS[ri])[1]) for ri in range(N_RATIOS_GEN)
+                    for si in range(len(SPEEDS))
+                    if _limits(SPEEDS[si], 1, RATIOS[ri])[0] and _limits(SPEEDS[si], 1, RATIOS[ri])[1] <= 3),
+                   key=lambda t: (RATIOS[t[0]] % 10 == 0, t))
+_N_ODD_BOUNDARY = sum(1 for ri, _, _ in _BOUNDARY if RATIOS[ri] % 10)
 
 
 def _fold_announced(items):
@@ -480,6 +516,7 @@ def run_case(case) -> CaseResult:
             elif isinstance(m, M.ParentSpeedRatio.Response):
                 mdl['ratio'] = m.ratio
             elif isinstance(m, M.GetUserStats.Response) and m.username == ME:
+                mdl['speed'] = m.user_stats.avg_speed
                 mdl['accept'], mdl['max'] = _limits(m.user_stats.avg_speed, mdl['min_speed'], mdl['ratio'])
             elif isinstance(m, M.PotentialParents.Response):
                 mdl['pp'].extend(e.username for e in m.entries)
@@ -544,10 +581,11 @@ def run_case(case) -> CaseResult:
                         violate('C13/child-accepted:acceptance-off',
                                 f"{peer.username} added as child at t={rec['t']} while child acceptance is off "
                                 f"(own speed below ParentMinSpeed*1024)")
-                    elif rec['n'] >= rec['max']:
+                    elif rec['max'] is not None and rec['n'] >= rec['max']:
                         violate('C13/child-accepted:limit-reached',
                                 f"{peer.username} added as child at t={rec['t']} with {rec['n']} children present, "
-                                f"maximum {rec['max']}")
+                                f"maximum {rec['max']} (own speed / ratio / min speed as received: "
+                                f"{mdl.get('speed')} / {mdl['ratio']} / {mdl['min_speed']})")
                 if rec['in_pp']:
                     violate('C13/child-accepted:potential-parent',
                             f"{peer.username} added as child at t={rec['t']} although the server proposed it as "
